@@ -17,6 +17,8 @@ const NAMES: &[&str] = &["a", "b-1", "k_2", "é", "\u{0}dup"]; // the last means
 const VALUES: &[(Option<&str>, &str)] = &[
     (None, ""),
     (Some("v1"), "v1"),
+    (Some("é1"), "é1"),
+    (Some("v-1_x"), "v-1_x"),
     (Some("\"\""), ""),
     (Some("\"x y\""), "x y"),
     (Some("\">\""), ">"),
